@@ -27,5 +27,10 @@ Literals(base) ==
                             Lit("{ to: { email: $qx$q, n: 2 }, urgent: true }",
                                 Obj(<<KV("to", Obj(<<KV("email", Str("x")), KV("n", Int("2"))>>)),
                                       KV("text", Null), KV("urgent", Sc("bool", "true"))>>))}
-Bases == {"Int", "Float", "String", "Boolean", "ID", "Message"}
+    \* member names that are a Rust keyword / not snake_case: the literal is written with the GraphQL names
+    [] base = "Awkward" -> {Lit("{ type: 3, camelCase: $qhi$q }",
+                                Obj(<<KV("type", Int("3")), KV("camelCase", Str("hi")), KV("loop", Null)>>)),
+                            Lit("{ loop: true }",
+                                Obj(<<KV("type", Null), KV("camelCase", Null), KV("loop", Sc("bool", "true"))>>))}
+Bases == {"Int", "Float", "String", "Boolean", "ID", "Message", "Awkward"}
 =============================================================================
